@@ -758,94 +758,55 @@ func (c *Ctx) c18Framing(pbLog, pbMsg *types.Named) {
 				r.Check(okStrip, "C18.F3", fi.Name(), "reader strips exactly the marker byte", c.P.Pos(call.Pos()), "proto.Unmarshal(x[1:], …)",
 					"a reader does not strip exactly one marker byte before decoding the protobuf value")
 				if okStrip {
-					// the marker was tested: a dominating fact x[0] == 'p' (or got/want form)
+					// the marker was tested: no path reaches the decode without an edge that establishes x[0] == 'p' (directly or in
+					// the got/want form) — except with an empty value, for which [1:] cannot be taken anyway
 					v := g.VertexOf(call)
-					okTest := false
-					for _, fct := range g.FactsAt(v) {
-						if fct.Tag != nil {
-							continue
+					resolve := func(e ast.Expr) ast.Expr {
+						if d := uniqueDef(info, fi.Node(), e); d != nil {
+							return d
 						}
-						be, isBE := ast.Unparen(fct.Expr).(*ast.BinaryExpr)
-						if !isBE {
-							continue
-						}
-						eq := (be.Op == token.EQL && fct.Val) || (be.Op == token.NEQ && !fct.Val)
-						if !eq {
-							continue
-						}
-						resolve := func(e ast.Expr) ast.Expr {
-							if d := uniqueDef(info, fi.Node(), e); d != nil {
-								return d
-							}
-							return e
-						}
-						isFirst := func(e ast.Expr) bool {
-							ie, ok := ast.Unparen(resolve(e)).(*ast.IndexExpr)
-							if !ok {
-								return false
-							}
-							z, okz := astx.ConstInt(info, ie.Index)
-							return okz && z == 0 && astx.Same(info, ie.X, se.X)
-						}
-						isP := func(e ast.Expr) bool {
-							e = resolve(e)
-							if cc, ok := ast.Unparen(e).(*ast.CallExpr); ok && astx.IsConversion(info, cc) && len(cc.Args) == 1 {
-								e = cc.Args[0]
-							}
-							v, ok := astx.ConstInt(info, e)
-							return ok && v == 'p'
-						}
-						if (isFirst(be.X) && isP(be.Y)) || (isFirst(be.Y) && isP(be.X)) {
-							okTest = true
-						}
+						return e
 					}
-					if !okTest {
-						// form: if got, want := x[0], byte('p'); got != want { return }
-						for _, vv := range g.V {
-							for _, e := range vv.Succ {
-								if e.Cond == nil {
-									continue
-								}
-								for _, fct := range cfgx.ExpandCond(e.Cond, e.Val) {
-									be, isBE := ast.Unparen(fct.Expr).(*ast.BinaryExpr)
-									if !isBE || fct.Tag != nil {
-										continue
-									}
-									ne := (be.Op == token.NEQ && fct.Val) || (be.Op == token.EQL && !fct.Val)
-									if !ne {
-										continue
-									}
-									resolve := func(e ast.Expr) ast.Expr {
-										if d := uniqueDef(info, fi.Node(), e); d != nil {
-											return d
-										}
-										return e
-									}
-									isFirst := func(e ast.Expr) bool {
-										ie, ok := ast.Unparen(resolve(e)).(*ast.IndexExpr)
-										if !ok {
-											return false
-										}
-										z, okz := astx.ConstInt(info, ie.Index)
-										return okz && z == 0 && astx.Same(info, ie.X, se.X)
-									}
-									isP := func(e ast.Expr) bool {
-										e = resolve(e)
-										if cc, ok := ast.Unparen(e).(*ast.CallExpr); ok && astx.IsConversion(info, cc) && len(cc.Args) == 1 {
-											e = cc.Args[0]
-										}
-										v, ok := astx.ConstInt(info, e)
-										return ok && v == 'p'
-									}
-									if (isFirst(be.X) && isP(be.Y)) || (isFirst(be.Y) && isP(be.X)) {
-										if !g.Reach(e.To, nil, nil)[v] {
-											okTest = true
-										}
+					isFirst := func(e ast.Expr) bool {
+						ie, ok := ast.Unparen(resolve(e)).(*ast.IndexExpr)
+						if !ok {
+							return false
+						}
+						z, okz := astx.ConstInt(info, ie.Index)
+						return okz && z == 0 && astx.Same(info, ie.X, se.X)
+					}
+					isP := func(e ast.Expr) bool {
+						e = resolve(e)
+						if cc, ok := ast.Unparen(e).(*ast.CallExpr); ok && astx.IsConversion(info, cc) && len(cc.Args) == 1 {
+							e = cc.Args[0]
+						}
+						v, ok := astx.ConstInt(info, e)
+						return ok && v == 'p'
+					}
+					passEdge := func(e2 *cfgx.Edge) bool {
+						if e2.Cond == nil {
+							return false
+						}
+						for _, f2 := range cfgx.ExpandCond(e2.Cond, e2.Val) {
+							b2, ok := ast.Unparen(f2.Expr).(*ast.BinaryExpr)
+							if !ok || f2.Tag != nil {
+								continue
+							}
+							eq := (b2.Op == token.EQL && f2.Val) || (b2.Op == token.NEQ && !f2.Val)
+							if eq && ((isFirst(b2.X) && isP(b2.Y)) || (isFirst(b2.Y) && isP(b2.X))) {
+								return true
+							}
+							if lc, ok := ast.Unparen(b2.X).(*ast.CallExpr); ok && astx.Builtin(info, lc) == "len" && len(lc.Args) == 1 && astx.Same(info, lc.Args[0], se.X) {
+								if z, ok := astx.ConstInt(info, b2.Y); ok && z == 0 {
+									if (b2.Op == token.GTR && !f2.Val) || (b2.Op == token.EQL && f2.Val) || (b2.Op == token.NEQ && !f2.Val) {
+										return true
 									}
 								}
 							}
 						}
+						return false
 					}
+					okTest := v >= 0 && !g.Reach(g.Entry, nil, passEdge)[v]
 					r.Check(okTest, "C18.F3", fi.Name(), "reader tests the marker byte", c.P.Pos(call.Pos()), "dominated by x[0] == 'p' (or the mismatch edge never reaches the decode)",
 						"a value is decoded as protobuf without its first byte having been compared with the 'p' marker")
 				}
@@ -1170,6 +1131,85 @@ func (c *Ctx) c18Batch() {
 				r.Check(strings.HasPrefix(o.adv, "len("), "C18.F4", dec.Name(), "cursor advances by the byte length after "+trimRecv(o.item), c.P.Pos(o.pos), "n += len", "the cursor is not advanced by the data length after the bytes item")
 			}
 		}
+	}
+	// cursor freshness: between two accesses of buffer[<cursor>:…] the cursor is advanced on every path; and index loops of
+	// the codec stop before the length (`<`)
+	for _, fi := range []*load.FuncInfo{enc, dec} {
+		info := fi.Info()
+		g := c.Graph(fi)
+		var cursor types.Object
+		usesCursor := func(n ast.Node) bool {
+			found := false
+			if n == nil {
+				return false
+			}
+			ast.Inspect(n, func(m ast.Node) bool {
+				if sl, ok := m.(*ast.SliceExpr); ok && sl.Low != nil {
+					if id, ok := ast.Unparen(sl.Low).(*ast.Ident); ok {
+						if o := astx.Obj(info, id); o != nil && (cursor == nil || o == cursor) {
+							if b, ok := o.Type().Underlying().(*types.Basic); ok && b.Info()&types.IsInteger != 0 {
+								cursor = o
+								found = true
+							}
+						}
+					}
+				}
+				return true
+			})
+			return found
+		}
+		var accV []int
+		for _, v := range g.Nodes() {
+			if as, ok := v.Node.(*ast.AssignStmt); ok && as.Tok == token.ADD_ASSIGN {
+				continue
+			}
+			if usesCursor(v.Node) {
+				accV = append(accV, v.ID)
+			}
+		}
+		isAdv := func(x int) bool {
+			as, ok := g.V[x].Node.(*ast.AssignStmt)
+			if !ok || as.Tok != token.ADD_ASSIGN || len(as.Lhs) != 1 {
+				return false
+			}
+			id, ok := as.Lhs[0].(*ast.Ident)
+			return ok && astx.Obj(info, id) == cursor
+		}
+		isAcc := func(x int) bool {
+			for _, a := range accV {
+				if a == x {
+					return true
+				}
+			}
+			return false
+		}
+		for _, a := range accV {
+			stale := false
+			for _, e := range g.V[a].Succ {
+				reach := g.Reach(e.To, isAdv, nil)
+				for _, b := range accV {
+					if (reach[b] || e.To == b) && !isAdv(e.To) {
+						stale = true
+					}
+				}
+			}
+			_ = isAcc
+			r.Check(!stale, "C18.F4", fi.Name(), "the cursor is advanced between two accesses of the buffer", c.P.Pos(g.V[a].Node.Pos()), "n += … on every path to the next buffer[n:] access",
+				"two items of the batch encoding are written to / read from the same offset (the cursor advance between them is missing on some path): the second overwrites the first, or the reader takes one item for two")
+		}
+		if len(accV) < 5 {
+			r.Break("C18.F4: only %d cursor accesses found in %s", len(accV), fi.Name())
+		}
+		ast.Inspect(fi.Body(), func(n ast.Node) bool {
+			fs, ok := n.(*ast.ForStmt)
+			if !ok || fs.Cond == nil {
+				return true
+			}
+			be, ok := ast.Unparen(fs.Cond).(*ast.BinaryExpr)
+			r.Check(ok && be.Op == token.LSS, "C18.F4", fi.Name(), "index loop stops before the element count", c.P.Pos(fs.Cond.Pos()), "i < count",
+				"an index loop of the codec runs one element too far (or uses another comparison): out-of-range access or an extra element read from the following bytes")
+			return true
+		})
 	}
 	// every item is written / read unconditionally: the counts in front of the lists are len(list), so an element
 	// that is skipped (or a loop that is left early) shifts everything that follows
